@@ -52,6 +52,7 @@ EXPECT = {  # subject substring -> checks that should detect the reversal
     "lock the peer once": ["C08"],
     "given up when a request on it times out": ["C15"],
     "after the attempt has failed no longer marks": ["C15"],
+    "nobody is waiting for does not stay": ["C15"],
 }
 
 
